@@ -131,6 +131,7 @@ func step(a absState, o Op) absState {
 	b := a.clone()
 	c := &b.C[o.Conn]
 	switch o.Kind {
+	case "refuse":
 	case "open":
 		c.Opened = true
 	case "write":
@@ -299,6 +300,13 @@ func execute(t *testing.T, c Case) (kind, detail string, stepsDone int, res bubb
 				conn := op.Conn
 				r.app = w.OpenApp(fc.ChName, func(off int) byte { return world.Pattern(tag(conn, sideTgt), off) })
 				rt[op.Conn] = r
+			case "refuse":
+				// a connection ATTEMPT for a channel the server does not offer, on the same session:
+				// it is refused; the established connections must not notice
+				ra := w.OpenApp("no-such-channel", nil)
+				bubble.Wait()
+				bubble.Advance(time.Second)
+				ra.Close()
 			case "write":
 				r := rt[op.Conn]
 				if op.Side == sideTgt && r.tgt == nil {
@@ -602,6 +610,30 @@ func TestCheck(t *testing.T) {
 						idx++
 					}
 				}
+			}
+		}
+	}
+	// scripted family: a refused connection attempt between the operations of established ones
+	for _, carrier := range []string{"stream", "ws", "stdio"} {
+		for _, pos := range []int{1, 2, 3, 4} {
+			for _, tail := range [][]Op{
+				{{Kind: "write", Conn: 0, Side: sideApp, N: 70000}, {Kind: "write", Conn: 1, Side: sideTgt, N: 70000}, {Kind: "write", Conn: 0, Side: sideTgt, N: 1}},
+				{{Kind: "write", Conn: 1, Side: sideApp, N: 1}, {Kind: "close", Conn: 0, Side: sideApp}, {Kind: "write", Conn: 1, Side: sideTgt, N: 70000}},
+			} {
+				seq := append([]Op{{Kind: "open", Conn: 0}, {Kind: "open", Conn: 1}}, tail...)
+				ops := append(append(append([]Op{}, seq[:pos]...), Op{Kind: "refuse"}), seq[pos:]...)
+				if r.Mine(idx) && !r.OverBudget() {
+					c := Case{Carrier: carrier, K: 2, Ops: ops}
+					var kind, detail string
+					var steps int
+					r.Guard(idx, 60*time.Second, "hang|"+carrier, c.String(), c, func() {
+						kind, detail, steps, _ = execute(t, c)
+					})
+					record(r, c, kind, detail, steps)
+					r.State(mc.Hash("refuse", carrier, pos, len(tail), kind != ""))
+					r.Nontrivial(mc.Hash(c.String()))
+				}
+				idx++
 			}
 		}
 	}
